@@ -372,6 +372,7 @@ fn systematic(run: &Run, thorough: bool, acc: &mut Acc) {
 
 fn encode(run: &Run, thorough: bool, acc: &mut Acc) {
     let codes: Vec<(&str, Small)> = vec![
+        ("general3x9", Small::from_rows(9, &[&[0, 1, 2, 6, 8], &[2, 3, 4, 7], &[0, 4, 5, 7, 8]])),
         ("stair3x5", Small::from_rows(5, &[&[0, 2], &[1, 2, 3], &[0, 1, 3, 4]])),
         (
             "dense4x12",
@@ -383,7 +384,7 @@ fn encode(run: &Run, thorough: bool, acc: &mut Acc) {
         let n = m.n;
         let k = n - m.r;
         let mut pats: Vec<Option<String>> = vec![None];
-        let pmax = if thorough { 6 } else { 4 };
+        let pmax = if n == 9 { 9 } else if thorough { 6 } else { 4 };
         for p in 1..=pmax {
             if n % p != 0 {
                 continue;
@@ -467,7 +468,7 @@ fn encode(run: &Run, thorough: bool, acc: &mut Acc) {
     let t = std::mem::take(acc);
     *acc = t.merge(part);
     // invalid invocations
-    let (_, m) = &codes[0];
+    let (_, m) = &codes[1];
     let apath = tmp(run, "enc_bad.alist");
     std::fs::write(&apath, m.sparse().alist()).unwrap();
     let ipath = tmp(run, "enc_bad.in");
@@ -643,7 +644,7 @@ pub fn run(run: &Run) -> i32 {
         run,
         acc,
         Coverage {
-            rule: "real binary built from the working tree with the verification guard off; dvbs2: all 11 rates x --short (21 valid + the invalid 9/10 short) with stdout compared to Code::h() by digest and text, --girth for the two rate-1/2 codes (thorough: all), invalid rates/flags; ccsds: 4 rate strings x 4 block sizes (k = 16384 only 4/5 in quick), girth, ccsds-c2; mackay-neal and peg: a grid of (rows, cols, weights, uniform, min girth, search) x 3 seeds against the library result for that seed (for --search the seed printed on stderr); systematic: every 2x4 matrix and a slice (thorough: all) of 3x4 and 3x3 matrices as files, rank-deficient ones must give the error text; encode: 2 codes x every puncturing pattern up to length 4 (6) x 0..2 complete words x 0/1/k-1 trailing bytes x byte-value fills; ber: 4 Eb/N0 grids x BPSK/8PSK x outer-code threshold x decoders, result-file lines checked against the statistics identities; plus invalid invocations for every subcommand (non-zero status, message, no panic text). Every invocation under a 60-300 s watchdog. Each invocation is a distinct non-trivial case.".into(),
+            rule: "real binary built from the working tree with the verification guard off; dvbs2: all 11 rates x --short (21 valid + the invalid 9/10 short) with stdout compared to Code::h() by digest and text, --girth for the two rate-1/2 codes (thorough: all), invalid rates/flags; ccsds: 4 rate strings x 4 block sizes (k = 16384 only 4/5 in quick), girth, ccsds-c2; mackay-neal and peg: a grid of (rows, cols, weights, uniform, min girth, search) x 3 seeds against the library result for that seed (for --search the seed printed on stderr); systematic: every 2x4 matrix and a slice (thorough: all) of 3x4 and 3x3 matrices as files, rank-deficient ones must give the error text; encode: 3 codes x every puncturing pattern up to length 4 (6; 9 for the 3x9 code, which contains the smallest pattern whose rate is inexact in binary) x 0..2 complete words x 0/1/k-1 trailing bytes x byte-value fills; ber: 4 Eb/N0 grids x BPSK/8PSK x outer-code threshold x decoders, result-file lines checked against the statistics identities; plus invalid invocations for every subcommand (non-zero status, message, no panic text). Every invocation under a 60-300 s watchdog. Each invocation is a distinct non-trivial case.".into(),
             exhaustive: true,
             extra: timing,
             graph: None,
